@@ -8,9 +8,12 @@ Local Open Scope N_scope.
 (* every glyph has exactly h row bytes *)
 Definition rows_ok (h : N) (gl : list (list N)) : Prop := Forall (fun g => lenN g = h) gl.
 
-(* fonts the PSF2 round trip holds for: any width/height below 2^31, up to MAX_GLYPHS (0xD800) glyphs *)
+(* fonts the PSF2 round trip holds for: every glyph size the loaders accept since fix fB (width 1..=MAX_FONT_WIDTH = 8,
+   height 1..=MAX_FONT_HEIGHT = 32; before the fix: any width / height below 2^31), up to MAX_GLYPHS (0xD800) glyphs *)
+Definition dims_ok (f : font) : Prop :=
+  (1 <= f_w f <= Z.of_N MAX_FONT_WIDTH)%Z /\ (1 <= f_h f <= Z.of_N MAX_FONT_HEIGHT)%Z.
 Definition wf_psf2_font (f : font) : Prop :=
-  (0 <= f_w f < 2147483648)%Z /\ (1 <= f_h f < 2147483648)%Z /\ (0 <= f_len f <= Z.of_N MAX_GLYPHS)%Z /\
+  (1 <= f_w f <= Z.of_N MAX_FONT_WIDTH)%Z /\ (1 <= f_h f <= Z.of_N MAX_FONT_HEIGHT)%Z /\ (0 <= f_len f <= Z.of_N MAX_GLYPHS)%Z /\
   lenN (f_glyphs f) = Z.to_N (f_len f) /\ rows_ok (Z.to_N (f_h f)) (f_glyphs f).
 
 (* the fonts the property quantifies over: width 8, height 1..=32, 256 or 512 glyphs, arbitrary row bytes *)
@@ -32,7 +35,7 @@ Definition sniffs_as_psf (data : list N) : bool :=
 
 Lemma wf_font_psf2 f : wf_font f -> wf_psf2_font f.
 Proof.
-  intros (Hw & Hh & Hl & Hn & Hr). unfold wf_psf2_font, MAX_GLYPHS. rewrite Hw.
+  intros (Hw & Hh & Hl & Hn & Hr). unfold wf_psf2_font, MAX_GLYPHS, MAX_FONT_WIDTH, MAX_FONT_HEIGHT. rewrite Hw.
   repeat split; try lia; try assumption; destruct Hl as [-> | ->]; lia.
 Qed.
 
@@ -188,7 +191,7 @@ Proof. exists (mkFont 8 (-1) 1 []). split; reflexivity. Qed.
 (* fonts the PSF2 writer/loader pair is defined for, with ANY number of glyphs present: the loader returns the font
    padded with empty glyphs up to `length` (and cut at `length`) *)
 Definition wf_psf2_partial (f : font) : Prop :=
-  (0 <= f_w f < 2147483648)%Z /\ (1 <= f_h f < 2147483648)%Z /\ (0 <= f_len f <= Z.of_N MAX_GLYPHS)%Z /\
+  (1 <= f_w f <= Z.of_N MAX_FONT_WIDTH)%Z /\ (1 <= f_h f <= Z.of_N MAX_FONT_HEIGHT)%Z /\ (0 <= f_len f <= Z.of_N MAX_GLYPHS)%Z /\
   rows_ok (Z.to_N (f_h f)) (f_glyphs f).
 
 Lemma from_bytes_psf2_magic rest : from_bytes (u32le PSF2_MAGIC ++ rest) = load_psf2 (u32le PSF2_MAGIC ++ rest).
@@ -205,7 +208,7 @@ Qed.
 Lemma psf2_padded_proof f : wf_psf2_partial f ->
   exists bs, to_psf2_bytes f = Ok bs /\ from_bytes bs = Ok (pad_font f).
 Proof.
-  intros (Hw & Hh & Hl & Hr0).
+  intros (Hw & Hh & Hl & Hr0). unfold MAX_FONT_WIDTH in Hw. unfold MAX_FONT_HEIGHT in Hh.
   destruct f as [w h len gl0]. unfold pad_font. cbn [f_w f_h f_len f_glyphs] in *.
   unfold to_psf2_bytes. rewrite all_glyph_bytes_pad by (cbn [f_h f_len]; lia).
   cbn [f_w f_h f_len f_glyphs bind].
@@ -238,10 +241,15 @@ Proof.
   cbn [negb orb].
   rewrite (u32_at_flat 1 vals Hv 6) by (cbn; lia). cbn [bind nth vals].
   rewrite (u32_at_flat 1 vals Hv 7) by (cbn; lia). cbn [bind nth vals].
+  rewrite (as_u32_small h) by lia. rewrite (as_u32_small w) by lia.
+  replace (Z.to_N w =? 0) with false by (symmetry; apply N.eqb_neq; lia).
+  replace (MAX_FONT_WIDTH <? Z.to_N w) with false by (symmetry; apply N.ltb_ge; unfold MAX_FONT_WIDTH; lia).
+  replace (Z.to_N h =? 0) with false by (symmetry; apply N.eqb_neq; lia).
+  replace (MAX_FONT_HEIGHT <? Z.to_N h) with false by (symmetry; apply N.ltb_ge; unfold MAX_FONT_HEIGHT; lia).
+  cbn [orb]. rewrite N.eqb_refl. cbn [negb].
   change PSF2_HEADERSIZE with (lenN (flat_map u32le vals)). rewrite drop_app. cbn [bind].
-  rewrite (as_u32_small h) by lia.
   rewrite glyphs_from_concat; [| lia | assumption | unfold MAX_GLYPHS; lia].
-  rewrite <- (as_u32_small h) by lia. rewrite <- (as_u32_small len) by lia.
+  rewrite <- (as_u32_small h) by lia. rewrite <- (as_u32_small len) by lia. rewrite <- (as_u32_small w) by lia.
   rewrite !as_i32_as_u32 by lia. reflexivity.
 Qed.
 
@@ -299,10 +307,10 @@ Proof.
 Qed.
 
 (* loading raw data through from_bytes (the DCS path and the built-in .F08/.F14/.F16 files) *)
-Lemma from_bytes_raw f : wf_raw_font f -> sniffs_as_psf (concat (f_glyphs f)) = false ->
+Lemma from_bytes_raw f : wf_raw_font f -> (f_h f <= Z.of_N MAX_FONT_HEIGHT)%Z -> sniffs_as_psf (concat (f_glyphs f)) = false ->
   from_bytes (concat (f_glyphs f)) = Ok f.
 Proof.
-  intros Hwf Hs. pose proof Hwf as (Hw & Hh & Hl & Hn & Hr).
+  intros Hwf Hmax Hs. pose proof Hwf as (Hw & Hh & Hl & Hn & Hr). unfold MAX_FONT_HEIGHT in Hmax.
   destruct f as [w h len gl]. cbn [f_w f_h f_len f_glyphs] in *.
   pose proof (rows_concat_len _ _ Hr) as Hc. rewrite Hn in Hc.
   unfold from_bytes.
@@ -313,6 +321,9 @@ Proof.
   unfold load_plain_font. rewrite Hc.
   replace ((Z.to_N h * 256) mod 256 =? 0) with true by (symmetry; apply N.eqb_eq; apply N.mod_mul; lia).
   cbn [negb]. rewrite N.div_mul by lia.
+  replace (Z.to_N h =? 0) with false by (symmetry; apply N.eqb_neq; lia).
+  replace (MAX_FONT_HEIGHT <? Z.to_N h) with false by (symmetry; apply N.ltb_ge; unfold MAX_FONT_HEIGHT; lia).
+  cbn [orb].
   rewrite Eraw, glyphs_from_concat; [| lia | assumption | rewrite Hn; unfold MAX_GLYPHS; lia].
   rewrite as_i32_small by lia. rewrite Z2N.id by lia. subst w len. reflexivity.
 Qed.
@@ -427,20 +438,20 @@ Section Dcs.
     rewrite parse_dec_digits by assumption. rewrite b64_inverse. reflexivity.
   Qed.
 
-  Lemma dcs_roundtrip_proof slot f : wf_raw_font f -> slot < 18446744073709551616 ->
+  Lemma dcs_roundtrip_proof slot f : wf_raw_font f -> (f_h f <= Z.of_N MAX_FONT_HEIGHT)%Z -> slot < 18446744073709551616 ->
     exists raw, convert_to_u8_data f = Ok raw /\
       (sniffs_as_psf raw = false -> load_custom_font b64_dec (dcs_string b64_enc slot raw) = Ok (slot, f)).
   Proof.
-    intros Hwf Hs. exists (concat (f_glyphs f)). split; [apply convert_raw; assumption|].
+    intros Hwf Hmax Hs. exists (concat (f_glyphs f)). split; [apply convert_raw; assumption|].
     intro Hn. rewrite load_dcs_string by assumption. rewrite from_bytes_raw by assumption. reflexivity.
   Qed.
 
-  Lemma dcs_roundtrip_full slot f : wf_raw_font f -> slot < 18446744073709551616 ->
+  Lemma dcs_roundtrip_full slot f : wf_raw_font f -> (f_h f <= Z.of_N MAX_FONT_HEIGHT)%Z -> slot < 18446744073709551616 ->
     exists raw, convert_to_u8_data f = Ok raw /\
       encode_as_ansi b64_enc slot f = Ok ([27; 80] ++ dcs_string b64_enc slot raw ++ [27; 92]) /\
       (sniffs_as_psf raw = false -> load_custom_font b64_dec (dcs_string b64_enc slot raw) = Ok (slot, f)).
   Proof.
-    intros Hwf Hs. destruct (dcs_roundtrip_proof slot f Hwf Hs) as (raw & E & R).
+    intros Hwf Hmax Hs. destruct (dcs_roundtrip_proof slot f Hwf Hmax Hs) as (raw & E & R).
     exists raw. split; [exact E|]. split; [|exact R].
     unfold encode_as_ansi. rewrite E. reflexivity.
   Qed.
@@ -532,6 +543,7 @@ Proof.
   apply orb_false_iff in C. destruct C as [C _]. apply negb_false_iff, N.eqb_eq in C.
   destruct (u32_at_ok 1 data 24) as [hh Ehh]; [lia|]. rewrite Ehh. cbn [bind].
   destruct (u32_at_ok 1 data 28) as [ww Eww]; [lia|]. rewrite Eww. cbn [bind].
+  destruct (_ || _); [exact I|]. destruct (negb (cs =? hh)); [exact I|].
   unfold drop. replace (lenN data <? hs) with false by (symmetry; apply N.ltb_ge; lia).
   exact I.
 Qed.
@@ -540,9 +552,9 @@ Lemma from_bytes_total_proof data : safe (from_bytes data).
 Proof.
   unfold from_bytes. destruct (N.ltb_spec (lenN data) 4) as [H|H]; [exact I|].
   destruct data as [|a [|b [|c [|d rest]]]]; try (cbn in H; lia).
-  destruct (le16 [a; b] =? PSF1_MAGIC); [exact I|].
+  destruct (le16 [a; b] =? PSF1_MAGIC); [unfold load_psf1; destruct (_ || _); exact I|].
   destruct (le32 [a; b; c; d] =? PSF2_MAGIC); [apply load_psf2_total|].
-  unfold load_plain_font. destruct (negb _); exact I.
+  unfold load_plain_font. destruct (_ || _); exact I.
 Qed.
 
 Lemma dcs_total_proof (b64_dec : list N -> option (list N)) s : safe (load_custom_font b64_dec s).
@@ -554,6 +566,98 @@ Proof.
   destruct (b64_dec payload) as [data|]; [|exact I].
   pose proof (from_bytes_total_proof data) as T. destruct (from_bytes data); try exact I; exact T.
 Qed.
+
+(* ------------------------------------------------------------------------------------------ fix fB: glyph size of a loaded font *)
+(* every font from_bytes returns (PSF1, PSF2 or raw data) has a glyph size of 1..=MAX_FONT_WIDTH x 1..=MAX_FONT_HEIGHT:
+   no width / height 0 (division by zero in the sixel epilogue of parse_with_parser), none >= 2^30 (overflow of
+   `position * font_dims`), none that becomes negative as an i32 (Layer::new) *)
+Ltac bind_ok E :=
+  match type of E with
+  | bind ?r _ = Ok _ => let v := fresh "v" in destruct r as [v| | |]; cbn [bind] in E; try discriminate E
+  end.
+
+Lemma load_psf2_dims data f : load_psf2 data = Ok f -> dims_ok f.
+Proof.
+  unfold load_psf2. intro E.
+  destruct (lenN data <? 32); [discriminate E|].
+  bind_ok E. destruct (PSF2_MAXVERSION <? v); [discriminate E|].
+  bind_ok E. bind_ok E. bind_ok E.
+  destruct (negb _ || _); [discriminate E|].
+  bind_ok E. bind_ok E.
+  destruct (N.eqb_spec v4 0) as [?|Hw0]; [discriminate E|].
+  destruct (N.ltb_spec MAX_FONT_WIDTH v4) as [?|Hw1]; [discriminate E|].
+  destruct (N.eqb_spec v3 0) as [?|Hh0]; [discriminate E|].
+  destruct (N.ltb_spec MAX_FONT_HEIGHT v3) as [?|Hh1]; [discriminate E|].
+  cbn [orb] in E. destruct (negb _); [discriminate E|].
+  bind_ok E. injection E as <-. unfold dims_ok. cbn [f_w f_h].
+  unfold MAX_FONT_WIDTH, MAX_FONT_HEIGHT in *. rewrite !as_i32_small by lia. lia.
+Qed.
+
+Lemma loaded_font_dims_proof data f : from_bytes data = Ok f -> dims_ok f.
+Proof.
+  unfold from_bytes. intro E. destruct (lenN data <? 4); [discriminate E|].
+  destruct data as [|a [|b [|c [|d rest]]]]; try discriminate E.
+  destruct (le16 [a; b] =? PSF1_MAGIC).
+  - unfold load_psf1 in E.
+    destruct (N.eqb_spec d 0) as [?|H0]; [discriminate E|].
+    destruct (N.ltb_spec MAX_FONT_HEIGHT d) as [?|H1]; [discriminate E|].
+    cbn [orb] in E. injection E as <-. unfold dims_ok, MAX_FONT_WIDTH, MAX_FONT_HEIGHT in *. cbn [f_w f_h]. lia.
+  - destruct (le32 [a; b; c; d] =? PSF2_MAGIC); [exact (load_psf2_dims _ _ E)|].
+    unfold load_plain_font in E. cbv zeta in E. destruct (negb _); [discriminate E|]. cbn [orb] in E.
+    revert E. generalize (lenN (a :: b :: c :: d :: rest) / 256). intros hh E.
+    destruct (N.eqb_spec hh 0) as [?|H0]; [discriminate E|].
+    destruct (N.ltb_spec MAX_FONT_HEIGHT hh) as [?|H1]; [discriminate E|].
+    cbn [orb] in E. injection E as <-. unfold dims_ok, MAX_FONT_WIDTH, MAX_FONT_HEIGHT in *. cbn [f_w f_h].
+    rewrite as_i32_small by lia. lia.
+Qed.
+
+(* the same through the DCS string: the font a `CTerm:Font:<slot>:<base64>` string installs *)
+Lemma dcs_font_dims_proof (b64_dec : list N -> option (list N)) s slot f :
+  load_custom_font b64_dec s = Ok (slot, f) -> dims_ok f.
+Proof.
+  unfold load_custom_font. intro E.
+  destruct (strip_prefix CTERM_FONT s); [|discriminate E].
+  destruct (split_colon l) as [[num payload]|]; [|discriminate E].
+  destruct (parse_usize num); [|discriminate E].
+  destruct (b64_dec payload) as [data|]; [|discriminate E].
+  destruct (from_bytes data) as [g| | |] eqn:F; try discriminate E.
+  injection E as _ <-. exact (loaded_font_dims_proof _ _ F).
+Qed.
+
+(* the loader BEFORE fix fB (finding C02-sixel-font0): width and height were taken from the header unchecked, and any
+   charsize went through as long as length * charsize + headersize was the file length *)
+Definition load_psf2_before_fix (data : list N) : res font :=
+  let n := lenN data in
+  if n <? 32 then Err E_LENGTH else
+  do version <- u32_at 1 data 4;
+  if PSF2_MAXVERSION <? version then Err E_VERSION else
+  do headersize <- u32_at 1 data 8;
+  do length <- u32_at 1 data 16;
+  do charsize <- u32_at 1 data 20;
+  if negb (length * charsize + headersize =? n) || (MAX_GLYPHS <? length) then Err E_LENGTH else
+  do height <- u32_at 1 data 24;
+  do width <- u32_at 1 data 28;
+  do rest <- drop 3 headersize data;
+  Ok (mkFont (as_i32 width) (as_i32 height) (as_i32 length) (glyphs_from_u8_data height rest)).
+
+(* a bare PSF2 header (no glyphs): magic, version 0, headersize 32, flags 0, length 0, charsize 0, height, width *)
+Definition psf2_header (h w : N) : list N :=
+  u32le PSF2_MAGIC ++ u32le 0 ++ u32le PSF2_HEADERSIZE ++ u32le 0 ++ u32le 0 ++ u32le 0 ++ u32le h ++ u32le w.
+
+Lemma psf2_dims_before_fix_refuted_proof :
+  load_psf2_before_fix (psf2_header 16 0) = Ok (mkFont 0 16 0 []) /\
+  load_psf2_before_fix (psf2_header 0 8) = Ok (mkFont 8 0 0 []) /\
+  load_psf2_before_fix (psf2_header 16 1073741824) = Ok (mkFont 1073741824 16 0 []) /\
+  load_psf2_before_fix (psf2_header 4294967295 4294967295) = Ok (mkFont (-1) (-1) 0 []).
+Proof. repeat split; vm_compute; reflexivity. Qed.
+
+Lemma psf2_dims_after_fix_proof :
+  from_bytes (psf2_header 16 0) = Err E_SIZE /\ from_bytes (psf2_header 0 8) = Err E_SIZE /\
+  from_bytes (psf2_header 16 1073741824) = Err E_SIZE /\ from_bytes (psf2_header 4294967295 4294967295) = Err E_SIZE /\
+  from_bytes [54; 4; 0; 0] = Err E_SIZE /\                       (* PSF1, charsize 0 *)
+  from_bytes (psf2_header 16 8) = Err E_LENGTH /\                (* charsize 0 <> height 16 *)
+  from_bytes (psf2_header 16 8 ++ repeat 0 32) = Err E_LENGTH.   (* length * charsize + headersize <> file length *)
+Proof. repeat split; vm_compute; reflexivity. Qed.
 
 (* create_8 / from_basic return a font for every input (the model functions are total and never panic);
    what they return for ragged data is the complete glyphs only *)
